@@ -96,7 +96,19 @@ POOLS = [
     # the extreme values of the order next to None: a sentinel standing in for None must not collide with a real key
     [float("inf"), float("-inf"), 1.0, None, None],
     [float("inf"), None], [float("-inf"), None],
+    # temporal keys (tagged strings, decoded by _dec): several times of day on one calendar day, and plain dates
+    ["T:2020-01-01T05:30:00", "T:2020-01-01T00:00:00", "T:2020-01-01T23:59:59", "T:2020-01-02T00:00:00", "T:2019-12-31T12:00:00", None],
+    ["D:2020-01-01", "D:2020-01-02", "D:2019-12-31", None],
 ]
+
+
+def _dec(x):
+    import datetime as _dt
+    if isinstance(x, str) and x[:2] == "T:":
+        return _dt.datetime.fromisoformat(x[2:])
+    if isinstance(x, str) and x[:2] == "D:":
+        return _dt.date.fromisoformat(x[2:])
+    return x
 
 
 def _random_table(rng, i, big):
@@ -308,7 +320,7 @@ def _ranks(values):
 
 
 def _all_cols(spec):
-    names, cols = list(spec["names"]), [list(c) for c in spec["cols"]]
+    names, cols = list(spec["names"]), [[_dec(x) for x in c] for c in spec["cols"]]
     at = spec["pos_at"]
     names.insert(at, "pos"); cols.insert(at, list(range(spec["n"])))
     return names, cols
@@ -357,10 +369,10 @@ def _build(spec):
         elif "vec" in k:
             # an external key vector may carry the NAME of a stored column (e.g. t.score.fillna(0) keeps the name 'score'):
             # the sort must go by the vector's values, not by the stored column of that name
-            v = Vector(list(k["vec"]), name=k.get("vname"))
+            v = Vector([_dec(x) for x in k["vec"]], name=k.get("vname"))
             vecs.append(v)
             keys.append(v)
-            model_keys.append({"k": "cells", "cells": _ranks(k["vec"])})
+            model_keys.append({"k": "cells", "cells": _ranks([_dec(x) for x in k["vec"]])})
         else:
             keys.append(k["bad"])
             model_keys.append({"k": "bad"})
